@@ -114,8 +114,7 @@ def eval_pass_first_round_is_some(F):
     sw = []
     for l in les:
         sw += option_switch(f, l)
-    if not sw:
-        return False, "the pass function does not match on the previous evaluation it is given", f
+    # (no early verdict when there is no `match`: the previous evaluation may be consulted as `previous.map_or(true, |p| ..)`)
     # Ok(None) returns
     none_returns = []
     some_returns = []
@@ -134,6 +133,19 @@ def eval_pass_first_round_is_some(F):
                     for fo in mir.provenance(f, du, o.term["args"][0]):
                         if fo.kind == "const" and fo.const.get("int") == 1:
                             continue
+                        if fo.kind == "call" and fo.callee in ("std::option::Option::<T>::map_or", "std::option::Option::<T>::is_none_or") and fo.term["args"]:
+                            # `previous.map_or(true, |p| eval != *p)`: false only as the outcome of the comparison made for a
+                            # supplied previous evaluation
+                            recv_ok = mir.op_place(fo.term["args"][0]) is not None and f["locals"][mir.op_place(fo.term["args"][0])["l"]] == OPT_REF_CT
+                            dflt = mir.op_const(fo.term["args"][1]) if fo.callee.endswith("map_or") and len(fo.term["args"]) > 2 else {"int": 1}
+                            cmp_ok = False
+                            for fr in fo.term.get("fnrefs") or ():
+                                g = F.fns.get(fr)
+                                if g is not None and any((t2.get("callee") or "") in ("std::cmp::PartialEq::ne", "std::cmp::PartialEq::eq") and "CompiledTx" in ((t2.get("resolved") or "") + " ".join(t2.get("gargs") or []))
+                                                         for _, t2 in mir.calls(g)):
+                                    cmp_ok = True
+                            if recv_ok and dflt and dflt.get("int") == 1 and cmp_ok:
+                                continue
                         if fo.kind == "call" and fo.callee in ("std::cmp::PartialEq::ne",) and "CompiledTx" in ((fo.term.get("resolved") or "") + " ".join(fo.term.get("gargs") or [])):
                             if any(some_t is not None and cfg.dominates(some_t, fo.bb) and (none_t is None or fo.bb not in cfg.reach_from(none_t)) for (_, none_t, some_t) in sw):
                                 continue
@@ -145,6 +157,8 @@ def eval_pass_first_round_is_some(F):
         return False, "the pass function can report convergence (None) without having compared with a previous evaluation", f
     if not none_returns:
         return False, "eval_pass never returns Ok(None): the resolve loop cannot detect convergence", f
+    if not sw:
+        return False, "the pass function does not match on the previous evaluation it is given", f
     for nb in none_returns:
         good = False
         for (bi, none_t, some_t) in sw:
@@ -320,7 +334,17 @@ def _exit_condition(f, du, u):
     if t["k"] == "switch":
         pl = mir.op_place(t["discr"])
         if pl is not None:
-            for d in du.defs.get(pl["l"], []):
+            # through plain copies (the result of an inlined helper `fn limit_exceeded(..) -> bool { a > b }`)
+            l = pl["l"]
+            for _ in range(6):
+                ds = [d for d in du.defs.get(l, []) if d[0] != "call"]
+                if len(ds) == 1 and ds[0][3]["rv"]["k"] == "use":
+                    p2 = mir.op_place(ds[0][3]["rv"]["op"])
+                    if p2 is not None and not p2["p"]:
+                        l = p2["l"]
+                        continue
+                break
+            for d in du.defs.get(l, []):
                 if d[0] != "call":
                     rv = d[3]["rv"]
                     if rv["k"] == "binop":
